@@ -536,7 +536,7 @@ class _Rx:
 def run_random_expressions(ctx, home, quick):
     """cross-language and reference agreement on random well-typed expressions (the emitters must reproduce precedence, associativity,
     promotion and casts for any tree, not only for the catalogue)"""
-    n_models = 1 if quick else 12
+    n_models = 1 if quick else 60
     per_model = 60 if quick else 170
     for mi in range(n_models):
         r = rng("C19rx", mi)
@@ -603,7 +603,7 @@ def run_random_expressions(ctx, home, quick):
         rows_py = json.load(open(op)) if res.get("ok") else None
         worker.close()
         if rows_cpp is None or rows_py is None:
-            ctx.violation("driver-failed:random:%s" % ("cpp" if rows_cpp is None else "py"), "Rx: computed-field driver failed: %s %s" % (pr.stderr[-300:], res.get("error")), {"case_dir": root})
+            ctx.violation("driver-failed:random:%s" % ("cpp" if rows_cpp is None else "py"), "Rx: computed-field driver failed: rc=%s sig=%s %s %s | %s" % (pr.rc, pr.sig, pr.stderr[-300:], res.get("error"), pr.stdout[-200:]), {"case_dir": root})
             continue
         pynames = [n.replace("_", "") for n in rows_py["names"]]
         mcpp = [x.lower() for x in methods]
